@@ -8,6 +8,12 @@ MTUS_Q = [576, 1500]
 MTUS_T = [576, 577, 1500, 9216]
 
 
+# every residue of the MTU modulo the QueryResp descriptor size (20) / the Emit descriptor size (14):
+# capacity arithmetic such as (MTU - 34) / 20 must be exercised in every alignment of the frame end
+MTUS_MOD20 = list(range(576, 596))
+MTUS_MOD14 = list(range(576, 590))
+
+
 def cfgs(mtus, wifis=(0, 1)):
     return [["--mtu", str(m), "--wifi", str(w)] for m in mtus for w in wifis]
 
@@ -33,13 +39,13 @@ def proto_runs(mode):
 
 def obs_runs(mode):
     def f(tier):
-        mt = MTUS_T if tier == "thorough" else MTUS_Q
+        mt = sorted(set(MTUS_MOD20 + [1500] + ([1492, 9216] + list(range(1480, 1500)) if tier == "thorough" else [])))
         return [("main", ["--mode", mode, "--mtu", str(m), "--wifi", "0"]) for m in mt]
     return f
 
 
 def c06_runs(tier):
-    mt = MTUS_T if tier == "thorough" else MTUS_Q
+    mt = sorted(set(MTUS_MOD14 + [1500] + ([577, 9216] if tier == "thorough" else [])))
     return [("main", ["--mode", "c06", "--mtu", str(m), "--wifi", "0"]) for m in mt]
 
 
@@ -171,7 +177,16 @@ def c17_runs(tier):
 
 
 EMIT = {"main": {"sources": MC + ["checks/emit.c"], "modes": ["c06", "c10"]}}
-OBS = {"main": {"sources": MC + ["checks/obs.c"], "modes": ["c07", "c19"]}}
+OBS = {"main": {"sources": MC + ["checks/obs.c"], "modes": ["c07", "c19", "c19pump", "c02o"]},
+       "proto": {"sources": MC + ["checks/proto.c"], "modes": ["c19p"]}}
+
+
+def c19_runs(tier):
+    mt = MTUS_T if tier == "thorough" else MTUS_Q
+    runs = [("main", ["--mode", "c19", "--mtu", str(m), "--wifi", "0"]) for m in mt]
+    runs += [("proto", ["--mode", "c19p", "--mtu", str(m), "--wifi", str(w)]) for m in mt for w in ((0, 1) if tier == "thorough" else (0,))]
+    runs += [("main", ["--mode", "c19pump", "--mtu", str(m), "--wifi", "0"]) for m in (mt if tier == "thorough" else [576, 1500])]
+    return runs
 PROTO = {"main": {"sources": MC + ["checks/proto.c"], "modes": ["c02", "c03", "c09"]}}
 
 PROPS = {
@@ -295,12 +310,14 @@ PROPS = {
                         "generator bounded at 300 outstanding observations (the property's range)"],
     },
     "C19": {
-        "builds": OBS, "runs": obs_runs("c19"), "level": "model_checking",
-        "technique": "explicit-state BFS over a generator alphabet: boundedness = the reachable state set closes; allocation-ledger monitors on every transition",
+        "builds": OBS, "runs": c19_runs, "level": "model_checking",
+        "technique": "explicit-state BFS over a generator alphabet: boundedness = the reachable state set closes; allocation-ledger monitors on every transition of that closure and of the full protocol-alphabet closure",
         "assumptions": ["bound demanded: retained bytes <= 64 KiB + icon size; the actual cap is read from the fixpoint, not from a constant"],
     },
     "C02": {
-        "builds": PROTO, "runs": proto_runs("c02"), "level": "model_checking",
+        "builds": dict(PROTO, obs=OBS["main"]),
+        "runs": lambda tier: proto_runs("c02")(tier) + [("obs", ["--mode", "c02o", "--mtu", str(m), "--wifi", "0"]) for m in (MTUS_MOD20 + [1500] if tier == "thorough" else [576, 589, 592, 593, 1492, 1500])],
+        "level": "model_checking",
         "technique": "explicit-state BFS to fixpoint over the real parseFrame with an independent wire decoder as oracle, executed twice with different fresh-memory fill patterns and compared transition by transition",
         "assumptions": ["frames of the alphabet are complete (received length >= fixed part of their opcode) and the receive buffer starts zeroed; runt frames are C01's subject",
                         "visited set stores 128-bit hashes of the canonical state (hash compaction)"],
